@@ -153,3 +153,33 @@ def equivalent(g, h, assume=None):
         if ev(g, asg) != ev(h, asg):
             return False
     return True
+
+
+def as_single_comparison(c):
+    """a boolean combination of comparisons of ONE pair of floats (in either orientation, `unord` included — what a
+    `match a.partial_cmp(&b)` turns into) that is equivalent to one plain comparison: -> ('fcmp', op, a, b), else None"""
+    from ..terms import subterms
+    if not isinstance(c, tuple):
+        return None
+    if c[0] == 'fcmp':
+        return c
+    atoms = []
+    atoms_of(c, atoms)
+    pairs = set()
+    for a in atoms:
+        pk = _pair_of(a)
+        if pk is None or (isinstance(pk[0], tuple) and pk[0] and pk[0][0] == 'int'):
+            return None
+        pairs.add(pk[0])
+    if len(pairs) != 1:
+        return None
+    x, y = next(iter(pairs))
+    # keep the orientation the code wrote first
+    first = [a for a in atoms if a[0] == 'fcmp']
+    if first and first[0][2] == y:
+        x, y = y, x
+    for op in ('lt', 'le', 'gt', 'ge', 'eq', 'ne'):
+        cand = ('fcmp', op, x, y)
+        if equivalent(c, cand) is True:
+            return cand
+    return None
